@@ -15,7 +15,8 @@ def glDigest (s : St) : String :=
   -- harness order: BTreeMap<(u8, char, u8)>, 'd' < 'w' — the slot order
   let ds := (List.range 8).filterMap (fun k => (s.acts k).map (fun (x : Act) =>
     s!"{x.owner}.{if x.kind = 0 then "d" else "w"}.{k % 2}:{x.state}:{x.m}:{x.escLong}:{x.escShort}:{x.escMt}:{x.escGlv}"))
-  s!"now={s.now} users=[{",".intercalate us}] acts=[{",".intercalate ds}] vault={s.vaultLong}:{s.vaultShort} glvvault={s.glvVault0}:{s.glvVault1} glvrec={s.glvRec0}:{s.glvRec1} mtsupply={s.mtSupply0}:{s.mtSupply1} glvsupply={glvSupply s}"
+  let hs := (List.range 2).filterMap (fun i => (s.shifts i).map (fun (x : Shift) => s!"{i}:{x.state}:{x.src}:{x.dst}:{x.amount}"))
+  s!"now={s.now} users=[{",".intercalate us}] acts=[{",".intercalate ds}] shifts=[{",".intercalate hs}] vault={s.vaultLong}:{s.vaultShort} glvvault={s.glvVault0}:{s.glvVault1} glvrec={s.glvRec0}:{s.glvRec1} mtsupply={s.mtSupply0}:{s.mtSupply1} glvsupply={glvSupply s}"
 
 def glWho (t : String) : Option Who :=
   if t = "k" then some .keeper else if t = "a" then some .admin
@@ -73,6 +74,25 @@ def glEngine (ss : GlState) (args : List String) : GlState × String :=
   | ["close", sid, who, id] =>
     match glLookup ss sid, glWho who, glId id with
     | some s, some who, some slot => glReply ss sid s (close s who slot)
+    | _, _, _ => (ss, "bad-op")
+  | ["screate", sid, who, i, a, b, c, el] =>
+    match glLookup ss sid, glWho who, allNat [i, a, b, c, el] with
+    | some s, some who, some [i, a, b, c, el] =>
+      if i < 2 && a < 2 && b < 2 && c < 2 ^ 64 && el ≤ 50000000 then glReply ss sid s (screate s who i a b c el) else (ss, "bad-op")
+    | _, _, _ => (ss, "bad-op")
+  | ["sexec", sid, who, i, fee, throw, fl, x] =>
+    match glLookup ss sid, glWho who, allNat [i, fee, x], pBool throw, pBool fl with
+    | some s, some who, some [i, fee, x], some throw, some fl =>
+      if i < 2 && fee < 2 ^ 64 && x < 2 ^ 64 then
+        match sexec s who i fee throw fl x with
+        | some (s', o, paid) =>
+          (glSet ss sid s', s!"ok {if o = Outcome.completed then "completed" else "cancelled"} fee={paid} | {glDigest s'}")
+        | none => (ss, s!"err | {glDigest s}")
+      else (ss, "bad-op")
+    | _, _, _, _, _ => (ss, "bad-op")
+  | ["sclose", sid, who, i] =>
+    match glLookup ss sid, glWho who, pNat i with
+    | some s, some who, some i => if i < 2 then glReply ss sid s (sclose s who i) else (ss, "bad-op")
     | _, _, _ => (ss, "bad-op")
   | ["rt", sid, u, m, l, sh] =>
     -- round-trip probe on clones of the real world: never changes the state
